@@ -33,7 +33,7 @@ Proof. vm_compute. split; reflexivity. Qed.
    and parsed by the specification, as the text with the white space outside classes removed; if that
    text is a pattern of the grammar of Proofs/GroupGrammar.v, the model's verdict on every input is the
    specification's for the stripped pattern *)
-Theorem C14_group_grammar_x_end_to_end :
+Theorem C14_group_grammar_x_end_to_end_partial :
   forall xpath a w fls input,
     ok_a xpath a = true -> existsb (N.eqb 59) fls = false -> (N.of_nat (length input) < umax)%N ->
     strip_ws w 0%Z false = show_a a ->
@@ -52,4 +52,4 @@ Proof. reflexivity. Qed.
 Print Assumptions C14_same.
 Print Assumptions C14_strip.
 Print Assumptions C14_keeps.
-Print Assumptions C14_group_grammar_x_end_to_end.
+Print Assumptions C14_group_grammar_x_end_to_end_partial.
